@@ -2,7 +2,7 @@
 # For every seed / mutant: run its own property's quick check against a private checkout of reval
 # with the patch applied; if that does not report a violation, try the neighbouring checks in turn.
 # Writes one JSON line per seed to seed_detect.jsonl (in the directory this script's repo copy lives in).
-# usage: [ORDER=reverse] tools/seed_detect.sh [repo-checkout]   ($VP_RUN_REPO from `vp run --with-repo` by default)
+# usage: [ORDER=reverse] [ONLY=<regex on the patch path>] tools/seed_detect.sh [repo-checkout]   ($VP_RUN_REPO from `vp run --with-repo` by default)
 set -u
 VDIR=$(cd "$(dirname "$0")/.." && pwd)
 REPO=${1:-${VP_RUN_REPO:?need a private checkout of reval}}
@@ -13,6 +13,7 @@ ALL="C11 C12 C05 C09 C13 C15 C17 C10 C16 C08 C06 C02 C03 C18 C14 C07 C19"
 cd "$REPO" || exit 2
 LIST=$(ls "$VDIR"/seeded/*/patch.diff "$VDIR"/mutants/*.diff)
 [ "${ORDER:-}" = reverse ] && LIST=$(echo "$LIST" | tac)
+[ -n "${ONLY:-}" ] && LIST=$(echo "$LIST" | grep -E "$ONLY")
 for P in $LIST; do
   NAME=$(basename "$(dirname "$P")"); [ "$NAME" = mutants ] && NAME=$(basename "$P" .diff)
   git -C "$REPO" checkout -q -- . 2>/dev/null; git -C "$REPO" clean -qfd src 2>/dev/null
